@@ -80,6 +80,8 @@ impl Executor {
             task::spawn(future, schedule_task, inner.context.executor_id);
 
         task_entry.insert(cancel_token);
+        #[cfg(nexosim_verif)]
+        crate::verif::spawned(runnable.id());
         let mut queue = inner.context.queue.borrow_mut();
         queue.push(runnable);
 
@@ -112,6 +114,8 @@ impl Executor {
             task::spawn_and_forget(future, schedule_task, inner.context.executor_id);
 
         task_entry.insert(cancel_token);
+        #[cfg(nexosim_verif)]
+        crate::verif::spawned(runnable.id());
         let mut queue = inner.context.queue.borrow_mut();
         queue.push(runnable);
     }
@@ -171,12 +175,18 @@ impl ExecutorInner {
             ACTIVE_TASKS.set(&self.active_tasks, || {
                 EXECUTOR_CONTEXT.set(&self.context, || {
                     panic::catch_unwind(AssertUnwindSafe(|| loop {
+                        #[cfg(nexosim_verif)]
+                        verif_pick(&self.context);
                         let task = match self.context.queue.borrow_mut().pop() {
                             Some(task) => task,
                             None => break,
                         };
 
+                        #[cfg(nexosim_verif)]
+                        crate::verif::set_current_task(task.id());
                         task.run();
+                        #[cfg(nexosim_verif)]
+                        crate::verif::set_current_task(0);
 
                         if self.abort_signal.is_set() {
                             return;
@@ -311,6 +321,21 @@ impl<T: Future> Drop for CancellableFuture<T> {
                 let _cancel_token = active_tasks.try_remove(self.cancellation_key);
             }
         });
+    }
+}
+
+/// Lets the verification harness choose the task that runs next: the chosen
+/// task is moved to the back of the queue, from where it is popped.
+#[cfg(nexosim_verif)]
+fn verif_pick(context: &ExecutorContext) {
+    let ids: Vec<usize> = context.queue.borrow().iter().map(|t| t.id()).collect();
+    // The queue must not be borrowed here: the harness may wake parked tasks.
+    if let Some(chosen) = crate::verif::pick(&ids) {
+        let mut queue = context.queue.borrow_mut();
+        if let Some(pos) = queue.iter().position(|t| t.id() == chosen) {
+            let task = queue.remove(pos);
+            queue.push(task);
+        }
     }
 }
 
